@@ -11,7 +11,8 @@ THEOREMS = [(M, "NQ.C09." + n) for n in [
     "step_alloc_ok", "step_use_ok", "step_free_ok",
     "id_reuse_free", "id_reuse_meas", "id_choice",
     "f12_fixed_witness", "f29_fixed_witness", "nv_context_fixed_witness",
-    "f28_counterexample", "f30_counterexample", "retry_exhausted_witness"]]
+    "f28_counterexample", "f30_counterexample", "retry_exhausted_witness",
+    "connections_independent", "agree_preserved_two_partial"]]
 TRANSLATORS = []
 LEVEL_TEXT = (
     "Lean theorems over histories of ANY length (induction over the operation list): the joint "
@@ -49,6 +50,8 @@ TRUSTED = [
     "link-layer schedule: one OK-K response per wait poll, in request order",
 ]
 ASSUMPTIONS = [
+    "boolean flags are passed as bool, 0/1, numpy.bool_ or None (where optional); numbers as Python "
+    "ints (numpy integers are refused up front by type assertions without touching any state)",
     "a min-fidelity retry loop succeeds within max_tries (if every attempt is too slow the request "
     "has failed and its handles are void: retry_exhausted_witness)",
     "link layer: responses in request order; schedules lazy / two per poll / all at request time",
@@ -189,7 +192,7 @@ def run(ctx):
             res.samples.append({"cfg": cfg, "ops": ops, "last": real[-1]})
 
     # ---- correspondence + oracle
-    n_cases = 20000 if ctx.thorough else 1500
+    n_cases = 20000 if ctx.thorough else 1300
     for it in range(n_cases):
         cfg = {"nv": rng.random() < 0.6, "transp": False, "maxq": rng.randint(1, 5)}
         if rng.random() < 0.35:
@@ -203,6 +206,60 @@ def run(ctx):
         oracle(cfg, ops, notes, schedule=schedule)
         if len(res.samples) < 6 and it % 53 == 0:
             res.samples.append({"cfg": cfg, "ops": ops, "last": real[-1] if real else None})
+
+    # ---- two connections alive in one process, operations interleaved, nested open context blocks
+    def two(cfgs, ops, stream):
+        real, notes = H.run_real2(cfgs, ops)
+        res.evaluations += 1
+        res.count("two-connections")
+        depth = 0
+        for o in ops:
+            if o["k"] == "ctx_open":
+                depth += 1
+                if depth == 2:
+                    res.count("two-connections: context blocks of both connections open at once")
+            elif o["k"] == "ctx_close":
+                depth -= 1
+        alone_fail = False
+        for c in (0, 1):
+            pops, at = H.project(ops, c)
+            model = H.canon_model(ctx.driver.call({"op": "qm.run", **cfgs[c], "ops": pops})["snaps"])
+            for j, (i, ms) in enumerate(zip(at, model)):
+                if i >= len(real):
+                    break
+                if real[i] != ms:
+                    res.disagreements.append({"stream": stream, "input": {"cfgs": cfgs, "ops": ops, "connection": c, "at": i},
+                                              "model": ms, "code": real[i]})
+                    break
+            wf, inb, _ = H.analyse(cfgs[c], pops)
+            if not (wf and inb):
+                return real
+            # a failure that the connection shows on its own operations alone is judged there
+            _, n1 = H.run_real(cfgs[c], pops)
+            if n1:
+                alone_fail = True
+                oracle(cfgs[c], pops, n1)
+        if notes and not alone_fail:
+            res.failures.append({"what": "two connections: failure that neither connection shows alone: " + str(notes[0]),
+                                 "kf": None, "input": {"cfgs": cfgs, "ops": ops}})
+        if any(s["ev"] for s in real):
+            res.nontrivial.add(("two", json.dumps(cfgs), json.dumps(ops, sort_keys=True)))
+        return real
+
+    B2 = {"g": 1, "c": "meas"}
+    two([{"nv": False, "transp": False, "maxq": 5}, {"nv": False, "transp": False, "maxq": 5}],
+        [{"c": 0, "k": "new"}, {"c": 0, "k": "ctx_open", "recv": False, "n": 2, "sequential": False, "body": B2},
+         {"c": 1, "k": "ctx_open", "recv": True, "n": 2, "sequential": False, "body": B2}, {"c": 1, "k": "ctx_close"},
+         {"c": 1, "k": "flush"}, {"c": 0, "k": "ctx_close"}, {"c": 0, "k": "flush"}, {"c": 0, "k": "new"},
+         {"c": 0, "k": "flush"}, {"c": 0, "k": "close"}, {"c": 1, "k": "close"}], "qm.two-corpus")
+    for it in range(1500 if ctx.thorough else 160):
+        cfgs = []
+        for _ in (0, 1):
+            c = {"nv": rng.random() < 0.5, "transp": False, "maxq": rng.randint(2, 5)}
+            if c["nv"] and rng.random() < 0.3:
+                c["transp"] = True
+            cfgs.append(c)
+        two(cfgs, H.random_ops2(rng, cfgs, rng.randint(1, 8)), "qm.two")
 
     # ---- oracle only: random Bell states (corrections are emitted for the receiver)
     n_bell = 5000 if ctx.thorough else 300
